@@ -1,7 +1,7 @@
 //@ unit C02_find
 //@ props C02 C04 C05
 //@ strength proved-unbounded
-//@ min-verified 4
+//@ min-verified 6
 //@ assume MatchType::match_glyph is abstracted as an uninterpreted predicate of (match type, GDEF, glyph); its conformance to the lookup-flag rule is Kani unit C04_flag
 //@ assume GDEFTable is an opaque placeholder type in this unit (only passed through)
 //@ unverified MatchType::find_first (iter().enumerate()) - exercised by Kani unit C04_seq
@@ -21,6 +21,59 @@ pub uninterp spec fn skips<G>(mt: MatchType, gdef: Option<&GDEFTable>, g: &G) ->
 
 /// "matching" index: not skipped under the lookup flags
 pub open spec fn m<G>(mt: MatchType, gdef: Option<&GDEFTable>, s: Seq<G>, k: int) -> bool { !skips(mt, gdef, &s[k]) }
+
+
+/// `r` is what find_next(i) must return: the nearest non-skipped index after i, or None when there is none
+pub open spec fn is_next<G>(mt: MatchType, gdef: Option<&GDEFTable>, s: Seq<G>, i: int, r: Option<int>) -> bool {
+    match r {
+        Some(j) => i < j < s.len() && m(mt, gdef, s, j) && (forall|k: int| i < k < j ==> !m(mt, gdef, s, k)),
+        None => forall|k: int| i < k < s.len() ==> !m(mt, gdef, s, k),
+    }
+}
+/// the n-th non-skipped glyph after i (n == 0: i itself), defined by iterating is_next
+pub open spec fn is_nth<G>(mt: MatchType, gdef: Option<&GDEFTable>, s: Seq<G>, i: int, n: nat, r: Option<int>) -> bool
+    decreases n
+{
+    if n == 0 { r == Some(i) } else {
+        exists|mid: Option<int>| #![auto] is_next(mt, gdef, s, i, mid) && (match mid { None => r is None, Some(j) => is_nth(mt, gdef, s, j, (n - 1) as nat, r) })
+    }
+}
+
+/// composing one more step at the END of an n-step walk
+proof fn lemma_nth_extend<G>(mt: MatchType, gdef: Option<&GDEFTable>, s: Seq<G>, i: int, n: nat, j: int, last: Option<int>)
+    requires is_nth(mt, gdef, s, i, n, Some(j)), is_next(mt, gdef, s, j, last)
+    ensures is_nth(mt, gdef, s, i, n + 1, last)
+    decreases n
+{
+    if n == 0 {
+        assert(j == i);
+        assert(is_nth(mt, gdef, s, j, 0, last) || true);
+        // one step: mid = last
+        if last is Some { assert(is_nth(mt, gdef, s, last->Some_0, 0, last)); }
+        assert(is_next(mt, gdef, s, i, last));
+    } else {
+        let mid = choose|mid: Option<int>| #![auto] is_next(mt, gdef, s, i, mid) && (match mid { None => false, Some(k) => is_nth(mt, gdef, s, k, (n - 1) as nat, Some(j)) });
+        assert(mid is Some);
+        lemma_nth_extend(mt, gdef, s, mid->Some_0, (n - 1) as nat, j, last);
+        assert(is_nth(mt, gdef, s, mid->Some_0, n as nat, last));
+    }
+}
+/// a walk that runs out of glyphs stays None however many more steps are asked for
+proof fn lemma_nth_none<G>(mt: MatchType, gdef: Option<&GDEFTable>, s: Seq<G>, i: int, n: nat, extra: nat)
+    requires is_nth(mt, gdef, s, i, n, None), n >= 1
+    ensures is_nth(mt, gdef, s, i, n + extra, None)
+    decreases n
+{
+    let mid = choose|mid: Option<int>| #![auto] is_next(mt, gdef, s, i, mid) && (match mid { None => true, Some(k) => is_nth(mt, gdef, s, k, (n - 1) as nat, None) });
+    match mid {
+        None => { assert(is_nth(mt, gdef, s, i, n + extra, None)); }
+        Some(k) => {
+            if n - 1 == 0 { assert(false); }
+            lemma_nth_none(mt, gdef, s, k, (n - 1) as nat, extra);
+            assert(is_nth(mt, gdef, s, i, n + extra, None));
+        }
+    }
+}
 
 impl MatchType {
     #[verifier::external_body]
@@ -63,6 +116,29 @@ impl MatchType {
         r is Some ==> m(self, opt_gdef_table, glyphs@, r->Some_0 as int),
         r is Some ==> (forall|k: int| index < k < r->Some_0 ==> !m(self, opt_gdef_table, glyphs@, k)),
         r is None ==> (forall|k: int| index < k < glyphs@.len() ==> !m(self, opt_gdef_table, glyphs@, k)),
+//@ end
+//@ fn src/context.rs | impl MatchType | find_nth
+//@ ret r
+//@ attr #[verifier::loop_isolation(false)]
+//@ before for _ in
+        let ghost start = index as int;
+//@ iter 1 it
+//@ loop 1
+            invariant index < usize::MAX, is_nth(self, opt_gdef_table, glyphs@, start, it.index@ as nat, Some(index as int)),
+//@ before match self.find_next
+            let ghost cur = index as int;
+            let ghost done = it.index@ as nat;
+//@ loop-end 1
+            proof {
+                // reached only through the Some arm: index is the next match after cur
+                assert(is_next(self, opt_gdef_table, glyphs@, cur, Some(index as int)));
+                lemma_nth_extend(self, opt_gdef_table, glyphs@, start, done, cur, Some(index as int));
+            }
+//@ spec
+    requires index < usize::MAX, glyphs@.len() <= usize::MAX   // the second conjunct is a Rust invariant of slices
+    ensures
+        // count == 0 returns the current index; otherwise the count-th non-skipped glyph after `index`
+        r is Some ==> is_nth(self, opt_gdef_table, glyphs@, index as int, count as nat, Some(r->Some_0 as int)),
 //@ end
 }
 
